@@ -238,23 +238,33 @@ func (l *BlockchainRpcTxWatcher) AddWaitForCsvTx(swapId, txId string, vout uint3
 	if err != nil {
 		log.Infof("[TxWatcher] checkTxAboveCsvHeight returned: %s", err.Error())
 	}
-	if above {
-		err = l.csvPassedCallback(swapId)
-		if err == nil {
-			log.Infof("Swap %s already past CSV limit", swapId)
-			return
+	addToWatchList := func() {
+		l.Lock()
+		defer l.Unlock()
+		l.csvtxWatchList[swapId] = &SwapTxInfo{
+			TxId:                txId,
+			TxVout:              vout,
+			Csv:                 csv,
+			StartingBlockHeight: startingBlockheight,
 		}
-		log.Infof("csv passed callback error: %v", err)
+	}
+	if above {
+		// Report from a goroutine of its own: the caller can be the state
+		// machine of this very swap (the action that registers the watch runs
+		// under the swap's lock) and the callback sends an event to it.
+		go func() {
+			err := l.csvPassedCallback(swapId)
+			if err == nil {
+				log.Infof("Swap %s already past CSV limit", swapId)
+				return
+			}
+			log.Infof("csv passed callback error: %v", err)
+			addToWatchList()
+		}()
+		return
 	}
 
-	l.Lock()
-	defer l.Unlock()
-	l.csvtxWatchList[swapId] = &SwapTxInfo{
-		TxId:                txId,
-		TxVout:              vout,
-		Csv:                 csv,
-		StartingBlockHeight: startingBlockheight,
-	}
+	addToWatchList()
 }
 
 func (l *BlockchainRpcTxWatcher) TxClaimed(swaps []string) {
